@@ -27,6 +27,9 @@ def Decides (r : R) (P : Prop) : Prop := (r = .ok ↔ P) ∧ ∀ s, r ≠ .panic
 theorem Decides.ctx {r : R} {P : Prop} (h : Decides r P) (c : String) : Decides (r.ctx c) P :=
   ⟨by simpa using h.1, by simpa using h.2⟩
 
+theorem Decides.and_left {r : R} {A B : Prop} (hA : A) (d : Decides r B) : Decides r (A ∧ B) :=
+  ⟨⟨fun h => ⟨hA, d.1.1 h⟩, fun h => d.1.2 h.2⟩, d.2⟩
+
 theorem decides_err {m : String} {P : Prop} (h : ¬ P) : Decides (.err m) P :=
   ⟨by simp [h], by simp⟩
 
@@ -807,5 +810,227 @@ theorem checkValueType_spec (v : Variance) (at_ bt : Types) (hu : at_.uid = bt.u
           simp only [Types.unfoldVT, hy] at hub
           simp only [hx, hy]
           exact checkDefined_spec v ih (unfoldVT_noNone at_ n) (unfoldVT_noNone bt n) x y ta tb hx9 hy9 hua hub
+
+/-! ### functions -/
+
+theorem checkFunc_spec (v : Variance) (at_ bt : Types) (hu : at_.uid = bt.uid → at_ = bt) (n : Nat)
+    (fa fb : Nat) (ta tb : Tree) (ha : at_.unfoldFunc n fa = some ta) (hb : bt.unfoldFunc n fb = some tb) :
+    Decides (checkFunc v n at_ fa bt fb) (eraseRes ta = eraseRes tb) := by
+  simp only [checkFunc]
+  by_cases hs : (at_.uid == bt.uid && fa == fb) = true
+  · simp only [hs, ↓reduceIte]
+    simp only [Bool.and_eq_true, beq_iff_eq] at hs
+    have := hu hs.1
+    subst this
+    rw [hs.2] at ha
+    rw [ha] at hb
+    cases hb
+    exact decides_ok rfl
+  · simp only [hs, Bool.false_eq_true, ↓reduceIte]
+    simp only [Types.unfoldFunc] at ha hb
+    cases hfa : at_.funcs[fa]? with
+    | none => simp [hfa] at ha
+    | some x =>
+      cases hfb : bt.funcs[fb]? with
+      | none => simp [hfb] at hb
+      | some y =>
+        simp only [hfa] at ha
+        simp only [hfb] at hb
+        split at ha
+        · rename_i pa ra hpa hra
+          split at hb
+          · rename_i pb rb hpb hrb
+            cases ha; cases hb
+            have hv := checkValueType_spec v at_ bt hu n
+            simp only [eraseRes, Tree.func.injEq]
+            by_cases hasync : x.isAsync = y.isAsync
+            · simp only [hasync, bne_self_eq_false, Bool.false_eq_true, ↓reduceIte, true_and]
+              by_cases hl : x.params.length = y.params.length
+              · simp only [hl, bne_self_eq_false, Bool.false_eq_true, ↓reduceIte]
+                have dp := checkParams_spec v hv x.params y.params 0 pa pb hpa hpb hl
+                cases hr : checkParams v (checkValueType v at_ bt n) 0 x.params y.params with
+                | ok =>
+                  have e1 : eraseResF pa = eraseResF pb := dp.1.1 hr
+                  simp only [e1, true_and]
+                  rcases opt_cases hv (unfoldVT_noNone at_ n) (unfoldVT_noNone bt n) x.result y.result ra rb hra hrb
+                    with ⟨h1, h2, e⟩ | ⟨p, q, h1, h2, d⟩ | ⟨hne, e⟩
+                  · rw [h1, h2]; exact decides_ok e
+                  · rw [h1, h2]; exact d.ctx _
+                  · cases hx : x.result <;> cases hy : y.result <;> simp [hx, hy] at hne <;> cases v <;>
+                      simp only [expFound] <;> exact decides_err e
+                | err m =>
+                  have : ¬ eraseResF pa = eraseResF pb := fun e => by have := dp.1.2 e; rw [hr] at this; cases this
+                  exact decides_err (fun e => this e.1)
+                | panic s => exact absurd hr (dp.2 s)
+              · have : (x.params.length != y.params.length) = true := by simpa using hl
+                simp only [this, ↓reduceIte]
+                cases v <;> simp only [expFound] <;> refine decides_err (fun e => erase_ne_of_length ?_ e.1) <;>
+                  rw [unfoldNamed_length _ pa hpa, unfoldNamed_length _ pb hpb] <;> exact hl
+            · have : (x.isAsync != y.isAsync) = true := by simpa using hasync
+              simp only [this, ↓reduceIte]
+              cases v <;> simp only [expFound] <;> exact decides_err (fun e => hasync e.1)
+          · cases hb
+        · cases ha
+
+/-! ### core externs and modules -/
+
+theorem limitsMatchImpl_eq (ai : Nat) (am : Option Nat) (bi : Nat) (bm : Option Nat) :
+    limitsMatchImpl ai am bi bm = limitsMatch ai am bi bm := by
+  cases am <;> cases bm <;> simp [limitsMatchImpl, limitsMatch]
+
+theorem checkCoreFunc_spec (v : Variance) (a b : CoreFuncType) : Decides (checkCoreFunc v a b) (a = b) := by
+  simp only [checkCoreFunc]
+  by_cases h : a = b
+  · subst h; simp only [bne_self_eq_false, Bool.false_eq_true, ↓reduceIte]; exact decides_ok (by simp)
+  · have : (a != b) = true := by simpa using h
+    simp only [this, ↓reduceIte]; exact decides_mismatch h
+
+theorem checkCoreExtern_spec (v : Variance) (a b : CoreExtern) :
+    Decides (checkCoreExtern v a b) (externSub a b = true) := by
+  cases a <;> cases b <;> simp only [checkCoreExtern, externSub]
+  case func.func x y => simpa using checkCoreFunc_spec v x y
+  case tag.tag x y => simpa using checkCoreFunc_spec v x y
+  case table.table ae ai am a64 ash be bi bm b64 bsh =>
+    rw [limitsMatchImpl_eq]
+    by_cases h1 : ae = be
+    · subst h1
+      simp only [bne_self_eq_false, Bool.false_eq_true, ↓reduceIte, beq_self_eq_true, Bool.true_and]
+      by_cases h2 : limitsMatch ai am bi bm = true
+      · simp only [h2, Bool.not_true, Bool.false_eq_true, ↓reduceIte, Bool.and_true]
+        by_cases h3 : a64 = b64
+        · subst h3
+          simp only [bne_self_eq_false, Bool.false_eq_true, ↓reduceIte, beq_self_eq_true, Bool.true_and]
+          by_cases h4 : ash = bsh
+          · subst h4; simp only [bne_self_eq_false, Bool.false_eq_true, ↓reduceIte, beq_self_eq_true]; exact decides_ok (by simp)
+          · have : (ash != bsh) = true := by simpa using h4
+            simp only [this, ↓reduceIte]; exact decides_err (by simpa using h4)
+        · have : (a64 != b64) = true := by simpa using h3
+          simp only [this, ↓reduceIte]; exact decides_err (by simp [h3])
+      · simp only [h2, Bool.not_false, ↓reduceIte]; exact decides_err (by simp [h2])
+    · have : (ae != be) = true := by simpa using h1
+      simp only [this, ↓reduceIte]
+      cases v <;> simp only [expFound] <;> exact decides_err (by simp [h1])
+  case memory.memory a64 ash ai am ap b64 bsh bi bm bp =>
+    rw [limitsMatchImpl_eq]
+    by_cases h1 : ash = bsh
+    · subst h1
+      simp only [bne_self_eq_false, Bool.false_eq_true, ↓reduceIte, beq_self_eq_true, Bool.and_true]
+      by_cases h2 : a64 = b64
+      · subst h2
+        simp only [bne_self_eq_false, Bool.false_eq_true, ↓reduceIte, beq_self_eq_true, Bool.true_and]
+        by_cases h3 : limitsMatch ai am bi bm = true
+        · simp only [h3, Bool.not_true, Bool.false_eq_true, ↓reduceIte, Bool.and_true]
+          by_cases h4 : ap.getD 16 = bp.getD 16
+          · simp only [h4, bne_self_eq_false, Bool.false_eq_true, ↓reduceIte, pageSizeLog2, beq_self_eq_true]
+            exact decides_ok (by simp)
+          · have : (ap.getD 16 != bp.getD 16) = true := by simpa using h4
+            simp only [this, ↓reduceIte]; exact decides_err (by simpa [pageSizeLog2] using h4)
+        · simp only [h3, Bool.not_false, ↓reduceIte]; exact decides_err (by simp [h3])
+      · have : (a64 != b64) = true := by simpa using h2
+        simp only [this, ↓reduceIte]; exact decides_err (by simp [h2])
+    · have : (ash != bsh) = true := by simpa using h1
+      simp only [this, ↓reduceIte]; exact decides_err (by simp [h1])
+  case global.global avt am ash bvt bm bsh =>
+    by_cases h1 : am = bm
+    · subst h1
+      simp only [bne_self_eq_false, Bool.false_eq_true, ↓reduceIte, beq_self_eq_true, Bool.and_true]
+      by_cases h2 : avt = bvt
+      · subst h2
+        simp only [bne_self_eq_false, Bool.false_eq_true, ↓reduceIte, beq_self_eq_true, Bool.true_and]
+        by_cases h3 : ash = bsh
+        · subst h3; simp only [bne_self_eq_false, Bool.false_eq_true, ↓reduceIte, beq_self_eq_true]; exact decides_ok (by simp)
+        · have : (ash != bsh) = true := by simpa using h3
+          simp only [this, ↓reduceIte]; exact decides_err (by simpa using h3)
+      · have : (avt != bvt) = true := by simpa using h2
+        simp only [this, ↓reduceIte]
+        cases v <;> simp only [expFound] <;> exact decides_err (by simp [h2])
+    · have : (am != bm) = true := by simpa using h1
+      simp only [this, ↓reduceIte]; exact decides_err (by simp [h1])
+  all_goals exact decides_mismatch (by simp)
+
+theorem moduleImports_spec (prev cur : Variance) (bI : List ((Str × Str) × CoreExtern)) :
+    ∀ l : List ((Str × Str) × CoreExtern),
+    Decides (moduleImports prev cur bI l)
+      (l.all (fun ia => match alGet bI ia.1 with | some eb => externSub eb ia.2 | none => false) = true)
+  | [] => by simpa [moduleImports] using decides_ok trivial
+  | (k, a) :: rest => by
+    simp only [moduleImports, List.all_cons, Bool.and_eq_true]
+    cases hg : alGet bI k with
+    | none =>
+      simp only
+      cases prev <;> exact decides_err (by simp)
+    | some b =>
+      simp only
+      have d := checkCoreExtern_spec cur b a
+      cases hr : checkCoreExtern cur b a with
+      | ok =>
+        have : externSub b a = true := d.1.1 hr
+        simp only [R.ctx, this, true_and]
+        exact moduleImports_spec prev cur bI rest
+      | err m =>
+        have : ¬ externSub b a = true := fun e => by have := d.1.2 e; rw [hr] at this; cases this
+        simp only [R.ctx]
+        exact decides_err (fun e => this e.1)
+      | panic s => exact absurd hr (d.2 s)
+
+theorem moduleExports_spec (cur : Variance) (aE : List (Str × CoreExtern)) :
+    ∀ l : List (Str × CoreExtern),
+    Decides (moduleExports cur aE l)
+      (l.all (fun eb => match alGet aE eb.1 with | some ea => externSub ea eb.2 | none => false) = true)
+  | [] => by simpa [moduleExports] using decides_ok trivial
+  | (k, b) :: rest => by
+    simp only [moduleExports, List.all_cons, Bool.and_eq_true]
+    cases hg : alGet aE k with
+    | none =>
+      simp only
+      cases cur <;> exact decides_err (by simp)
+    | some a =>
+      simp only
+      have d := checkCoreExtern_spec .covariant a b
+      cases hr : checkCoreExtern .covariant a b with
+      | ok =>
+        have : externSub a b = true := d.1.1 hr
+        simp only [R.ctx, this, true_and]
+        exact moduleExports_spec cur aE rest
+      | err m =>
+        have : ¬ externSub a b = true := fun e => by have := d.1.2 e; rw [hr] at this; cases this
+        simp only [R.ctx]
+        exact decides_err (fun e => this e.1)
+      | panic s => exact absurd hr (d.2 s)
+
+theorem Checker.revert_invert (c : Checker) : (c.invert).2.revert = some c := by
+  simp [Checker.invert, Checker.revert]
+
+theorem checkModule_spec (c : Checker) (at_ bt : Types) (hu : at_.uid = bt.uid → at_ = bt)
+    (a b : Nat) (ma mb : ModuleType) (hma : at_.modules[a]? = some ma) (hmb : bt.modules[b]? = some mb)
+    (hd : ma.keysDistinct = true) :
+    Decides (checkModule c at_ a bt b).1 (moduleSub ma mb = true) ∧
+      (checkModule c at_ a bt b).2.cache = c.cache ∧
+      ((checkModule c at_ a bt b).1 = .ok → (checkModule c at_ a bt b).2.kinds = c.kinds) := by
+  simp only [checkModule]
+  by_cases hs : (at_.uid == bt.uid && a == b) = true
+  · simp only [hs, ↓reduceIte]
+    simp only [Bool.and_eq_true, beq_iff_eq] at hs
+    have := hu hs.1
+    subst this
+    rw [hs.2, hmb] at hma
+    cases hma
+    exact ⟨decides_ok (moduleSub_refl ma hd), by simp, by simp⟩
+  · simp only [hs, Bool.false_eq_true, ↓reduceIte, hma, hmb]
+    have di := moduleImports_spec c.invert.1 c.invert.2.kind mb.imports ma.imports
+    cases hr : moduleImports c.invert.1 c.invert.2.kind mb.imports ma.imports with
+    | ok =>
+      simp only [Checker.revert_invert]
+      have de := moduleExports_spec c.kind ma.exports mb.exports
+      refine ⟨?_, by simp, by simp⟩
+      simp only [moduleSub, Bool.and_eq_true]
+      exact de.and_left (di.1.1 hr)
+    | err m =>
+      refine ⟨decides_err ?_, by simp [Checker.invert], by simp⟩
+      intro e
+      simp only [moduleSub, Bool.and_eq_true] at e
+      have := di.1.2 e.1
+      rw [hr] at this; cases this
+    | panic s => exact absurd hr (di.2 s)
 
 end Wac
